@@ -137,6 +137,17 @@ func (in *vfC05Inst) quiesce(judge bool) string {
 	g := in.g
 	in.lastEv = "quiesce"
 	g.clearStep()
+	// stream goroutines held at a yield point run on
+	g.ymu.Lock()
+	g.yArmed = map[string]bool{}
+	g.ymu.Unlock()
+	_, parked := g.yieldState()
+	for _, k := range parked {
+		g.releaseYield(k)
+		synctest.Wait()
+		g.collect()
+		in.absorb()
+	}
 	for _, name := range g.order {
 		if g.gated[name] {
 			g.apply("ungate:" + name)
@@ -248,6 +259,12 @@ func vfC05Scenarios(thorough bool) []*vfGWScenario {
 		mk(router+"-api", router, 0, nil, []string{"conn:a"}, append([]string{"conn:b", "disc:a", "sub:a:t", "unsub:a:t", "sub:b:t"}, api...))
 		mk(router+"-streams", router, 0, nil, []string{"join:t"}, []string{"conn:a", "disc:a", "hold:a", "release:a", "failstream:a", "inreset:a", "inopen:a", "outreset:a", "sub:a:t", "leave:t", "join:t", "relay:u", "adv:1100"})
 		mk(router+"-retry", router, 1, nil, []string{"conn:a", "conn:b"}, []string{"gate:a", "ungate:a", "join:t", "leave:t", "relay:t", "unrelay:t", "join:u", "leave:u", "adv:1100", "disc:a", "conn:a"})
+	}
+	// a stream goroutine descheduled between two hand-offs to the event loop (named yield points, one hold at a time)
+	for _, router := range []string{"flood", "gossip"} {
+		mk(router+"-yield", router, 0, nil, []string{"join:t", "conn:a", "sub:a:t"}, []string{"holdy:inbound-unregistered:a", "rely:inbound-unregistered:a", "holdy:inbound-registered:a", "rely:inbound-registered:a",
+			"holdy:outbound-opened:a", "rely:outbound-opened:a", "inreset:a", "inopen:a", "sub:a:t", "disc:a", "conn:a", "outreset:a"})
+		out[len(out)-1].Depth = d + 2 // the shortest interesting interleavings need arm, close, reopen, re-announce, release
 	}
 	mk("gossip-fanoutonly", "gossip", 0, map[string]string{"fanout_only": "t"}, []string{"conn:a"}, []string{"join:t", "leave:t", "relay:t", "join:u", "leave:u", "conn:b", "disc:a", "lpub:t:p1", "hb"})
 	return out
